@@ -184,6 +184,33 @@ pub fn cases(ctx: &Ctx) -> Vec<WCase> {
         s.settle_ms = 0;
         out.push(wcase(format!("stalledpoller-{i}"), s));
     }
+    // F. a spectator that stops polling for a few seconds and then comes back, with a timeout longer than the time the host needs
+    // to pile up 128 unacknowledged frames: the host drops it because of the overflow (Disconnected BEFORE the timeout), and
+    // afterwards the spectator's packets arrive again: nothing more may be reported for that address
+    for i in 0..ctx.n(300, 12_000) {
+        let mut rr = r.fork(0x6000_0000 + i as u64);
+        let mut s = Scn::base(rr.next());
+        s.peers = rr.pick(&[vec![vec![0, 1]], vec![vec![0], vec![1]]]);
+        s.mp = rr.pick(&[2usize, 8]);
+        s.fps = rr.pick(&[60usize, 120]);
+        s.frames = 100_000;
+        s.notify_ms = rr.pick(&[300u64, 500]);
+        s.timeout_ms = rr.pick(&[5000u64, 8000]);
+        s.link = Link::clean(rr.pick(&[0u64, 10]));
+        let mut sp = SpecCfg::new(0);
+        let a = rr.range(1500, 2500);
+        // 128 frames take 2.14 s at 60 fps, 1.07 s at 120 fps
+        let silent = rr.range(2400, 4300);
+        sp.pauses.push((a, a + silent));
+        s.specs.push(sp);
+        for _ in 0..s.peers.len() {
+            s.nodes.push(NodeCfg::default());
+        }
+        s.start = Start::AllRunning;
+        s.limit_ms = a + silent + 3000;
+        s.settle_ms = 0;
+        out.push(wcase(format!("specoverflow-{i}"), s));
+    }
     // D. the user never drains events: floods of Interrupted/Resumed, WaitRecommendation, DesyncDetected
     for i in 0..ctx.n(120, 4000) {
         let mut rr = r.fork(0x4000_0000 + i as u64);
@@ -384,6 +411,16 @@ pub fn run_case(c: &WCase) -> Outcome {
                 check_silences(w, out);
                 out.nontrivial = w.any_event(|e| matches!(e, Ev::Resumed { .. }));
             }
+            "specoverflow" => {
+                let host = &w.nodes[0];
+                let sa = spec_addr(0);
+                let dropped_early = host.events.iter().any(|(t, e)| matches!(e, Ev::Disconnected { addr } if *addr == sa) && *t < T0 + (w.scn.specs[0].pauses[0].0 + w.scn.timeout_ms) * MS);
+                let came_back = w.net.borrow().last_rx.get(&(sa, host.addr)).is_some_and(|t| *t > T0 + w.scn.specs[0].pauses[0].1 * MS);
+                if dropped_early && came_back {
+                    out.count("spectators_dropped_by_overflow_that_came_back", 1);
+                }
+                out.nontrivial = dropped_early && came_back;
+            }
             "stalledpoller" => {
                 let n0 = &w.nodes[0];
                 let crossed_both_in_one_poll = n0.events.windows(2).any(|p| matches!((&p[0].1, &p[1].1), (Ev::Interrupted { addr: a, .. }, Ev::Disconnected { addr: b }) if a == b) && p[0].0 == p[1].0);
@@ -418,7 +455,7 @@ pub fn check(ctx: &Ctx) -> i32 {
     let res = par_run(ctx, &cs, &|c: &WCase| c.id.clone(), &run_case);
     let meta = Meta {
         level: "exploration",
-        rule: "four families. (A) handshakes of 1-3 remotes and spectators over links with loss up to 50 %, duplication, reordering jitter and injected stray replies (exact duplicate, corrupted nonce, foreign address after every genuine SyncReply), advance_frame called from the very start: Running must coincide at every tick with 'every remote has 5 matched request/reply round trips' as counted by the harness from the packet log, advance_frame must return NotSynchronized exactly while not Running, the handshake must complete. (B) scripted silences on a player or spectator link with lengths on a 5 ms grid around the notify delay and the timeout (notify {100,300,500} ms, timeout notify+{200,1500} ms): per silence, NetworkInterrupted iff longer than notify (+one tick of slack) at the right time and with the right remaining-time field, NetworkResumed with the first packet after it, Disconnected iff longer than the timeout, nothing after Disconnected. (C) sessions that only poll (cadence 1..100 ms, latency 0..100 ms, default timeouts) for 60 s: no NetworkInterrupted. (E) a stalled application: one side does not poll across both the notify delay and the timeout of a peer that died, so both thresholds are crossed in a single poll (the automaton must still see NetworkInterrupted before Disconnected and nothing after); family (B) also includes notify delays equal to or above the timeout. (D) sessions whose user never drains events for 3000-10000 frames with an interruption every 400 ms, speed skew (WaitRecommendation) and diverging games under detection interval 1 (DesyncDetected): queue length <= 100 at every API boundary (hook) and in events(). Every event stream of every family is run through the per-address lifecycle automaton. Non-trivial: (A) >=1 lost and >=1 duplicated/stray handshake packet, (B) >=1 Interrupted/Resumed pair, (C) 60 s completed, (D) the queue reached 100, (E) both events were raised by the same poll. Distinct: configuration + trace hash.".into(),
+        rule: "four families. (A) handshakes of 1-3 remotes and spectators over links with loss up to 50 %, duplication, reordering jitter and injected stray replies (exact duplicate, corrupted nonce, foreign address after every genuine SyncReply), advance_frame called from the very start: Running must coincide at every tick with 'every remote has 5 matched request/reply round trips' as counted by the harness from the packet log, advance_frame must return NotSynchronized exactly while not Running, the handshake must complete. (B) scripted silences on a player or spectator link with lengths on a 5 ms grid around the notify delay and the timeout (notify {100,300,500} ms, timeout notify+{200,1500} ms): per silence, NetworkInterrupted iff longer than notify (+one tick of slack) at the right time and with the right remaining-time field, NetworkResumed with the first packet after it, Disconnected iff longer than the timeout, nothing after Disconnected. (C) sessions that only poll (cadence 1..100 ms, latency 0..100 ms, default timeouts) for 60 s: no NetworkInterrupted. (E) a stalled application: one side does not poll across both the notify delay and the timeout of a peer that died, so both thresholds are crossed in a single poll (the automaton must still see NetworkInterrupted before Disconnected and nothing after); family (B) also includes notify delays equal to or above the timeout. (F) a spectator that is silent long enough for the host to pile up 128 unacknowledged frames before the (long) timeout, is dropped because of the overflow and then comes back: nothing more may be reported for its address. (D) sessions whose user never drains events for 3000-10000 frames with an interruption every 400 ms, speed skew (WaitRecommendation) and diverging games under detection interval 1 (DesyncDetected): queue length <= 100 at every API boundary (hook) and in events(). Every event stream of every family is run through the per-address lifecycle automaton. Non-trivial: (A) >=1 lost and >=1 duplicated/stray handshake packet, (B) >=1 Interrupted/Resumed pair, (C) 60 s completed, (D) the queue reached 100, (E) both events were raised by the same poll. Distinct: configuration + trace hash.".into(),
         assumptions: std_assumptions(),
         floor_nontrivial: if ctx.quick() { 300 } else { 8000 },
         exhaustive: None,
